@@ -1614,7 +1614,11 @@ lyds_merge_nodes2(struct lyd_node **first_dst, struct lyd_node **leader_dst,
         struct rb_node *rbt_src, struct lyd_node **next_p)
 {
     LY_ERR ret;
-    struct rb_node *dst_iter;
+    struct rb_node *dst_iter, *max;
+
+    /* data node after the last source node of the Red-black tree, needed if none is moved behind the destination nodes */
+    for (max = rbt_src; RBN_RIGHT(max); max = RBN_RIGHT(max)) {}
+    *next_p = RBN_DNODE(max)->next;
 
     /* merge first destination node, move source nodes which belongs before this node */
     ret = lyds_merge_nodes2_front(leader_dst, first_src, leader_src, &rbt_src, &dst_iter, next_p);
